@@ -139,12 +139,61 @@ TARGETS = [
                   exprs={"self.data.cmp(&other.data)": "dataCmp",
                          "self.value_id.get().cmp(&other.value_id.get())": "(compare id1 id2)",
                          "self.size.cmp(&other.size)": "(compare s1 s2)"})),
+    # ---- the layout header: one property (`Property::serialize`), as a sequence of writes
+    dict(name="propertyWrites", group="Dir", file="src/creator/directory_pack/layout/property.rs", fn="serialize",
+         after=r"impl<PN: PropertyName> Serializable for Property<PN>",
+         enums=[dict(rust="Property", file="src/creator/directory_pack/layout/property.rs", lean="SrcProperty",
+                     types={"&'static str": "List UInt8", "PN": "List UInt8", "u8": "Nat", "ByteSize": "Nat", "StoreHandle": "Nat",
+                            "Option<ByteSize>": "Option Nat", "Option<(ByteSize, StoreHandle)>": "Option (Nat × Nat)",
+                            "Option<u16>": "Option Nat", "Option<u64>": "Option Nat", "Option<i64>": "Option Int"}),
+                dict(rust="PropType", file="src/bases/prop_type.rs", discriminants=True)],
+         cfg=dict(params=[("p", "SrcProperty")], ret="List (Nat × Nat)", writes=True, no_loops=True,
+                  prelude="let out : List (Nat × Nat) := []", prelude_scope=["out"],
+                  paths={"self": "p"}, patterns={"ByteSize::U2": "2"},
+                  serializes={"store.get_idx().unwrap()": ("store", "ValueStoreIdx"), "store_handle.get_idx().unwrap()": ("store_handle", "ValueStoreIdx")},
+                  exprs={"Ok(written)": "out"})),
 ]
 
 
 def read(path):
     with open(os.path.join(REPO, path)) as f:
         return f.read()
+
+
+def lower_first(s):
+    return s[0].lower() + s[1:]
+
+
+def apply_enums(t):
+    """for a target with `enums`: the Lean inductive declarations mirroring the Rust enums (field order
+    and names from the source) and the pattern / path tables derived from them"""
+    decls = []
+    cfg = t["cfg"]
+    for en in t.get("enums", []):
+        variants = rs2lean.enum_decl(read(en["file"]), en["rust"])
+        if en.get("discriminants"):
+            for v, _f, disc in variants:
+                if disc is None:
+                    raise rs2lean.Untranslatable(f"enum {en['rust']}: variant {v} has no discriminant")
+                cfg.setdefault("paths", {})[f"{en['rust']}::{v}"] = rs2lean.int_literal(disc)
+            continue
+        lines = [f"inductive {en['lean']} where"]
+        for v, fields, _d in variants:
+            ctor = lower_first(v)
+            args = []
+            for k, (fname, fty) in enumerate(fields or []):
+                if fty not in en["types"]:
+                    raise rs2lean.Untranslatable(f"enum {en['rust']}: field type not in the table: {fty}")
+                args.append(f"({fname or 'x' + str(k)} : {en['types'][fty]})")
+            lines.append(f"  | {ctor} " + " ".join(args))
+            full = f"{en['rust']}::{v}"
+            if fields and fields[0][0] is not None:
+                cfg.setdefault("struct_patterns", {})[full] = (f"{en['lean']}.{ctor}", [f for f, _ in fields])
+            else:
+                cfg.setdefault("patterns", {})[full] = f"{en['lean']}.{ctor}"
+        lines.append("  deriving Repr, DecidableEq")
+        decls.append("\n".join(lines) + "\n")
+    return "\n".join(decls)
 
 
 GROUP_IMPORTS = {"Content": ["JubakoModel.Generated.FuncsBytes"], "Dir": ["JubakoModel.Generated.FuncsBytes", "JubakoModel.Model.Bytes"]}
@@ -174,10 +223,12 @@ def main():
         try:
             src = read(t["file"])
             sig, body = rs2lean.function_source(src, t["fn"], t.get("after"))
+            decls = apply_enums(t) if t.get("enums") else ""
             if t.get("let"):
                 text = rs2lean.translate_expr(name, rs2lean.let_initialiser(body, t["let"]), t["cfg"])
             else:
                 text = rs2lean.translate(name, body, t["cfg"])
+            text = (decls + "\n" if decls else "") + text
             if name in pinned and pinned[name] != text:
                 st = "extracted-changed"
         except rs2lean.Untranslatable as e:
